@@ -137,7 +137,9 @@ def run(ck: Check):
             if not bad:
                 exh.append((det, cfg, flags))
     if exh:
-        exprs = [f"all01_flags {det.coq_D} (fun b => zf b) {det.coq_obs} ({det.coq_cfg(cfg)} : {det.coq_cfg_ty}) {L}%nat" for det, cfg, _ in exh]
+        from detectors import coq_cfg_pos, coq_D, obs_fn
+
+        exprs = [f"all01_flags {coq_D(det)} (fun b => zf b) {obs_fn(det)} {coq_cfg_pos(det, cfg)} {L}%nat" for det, cfg, _ in exh]
         res = coq_eval("C01x", HDR, exprs, shard=1)
         for (det, cfg, flags), r in zip(exh, res):
             ck.corr_cases += len(flags)
@@ -146,12 +148,9 @@ def run(ck: Check):
                 ck.mismatch(f"model {det.coq_D} vs {det.name} on exhaustive 0/1 streams", dict(detector=det.name, config=cfg, stream=[(k >> (L - 1 - j)) & 1 for j in range(L)], impl_flags=flags[k], model_flags=r[k]))
     # correspondence on the random / constant cases
     models = run_models("C01", cases)
-    for (det, cfg, ops, _), im, mo in zip(cases, impl_out, models):
-        ck.corr_cases += 1
-        d = compare_traces(im, mo)
-        if d is not None:
-            ck.mismatch(f"model {det.coq_D} vs {det.name}", dict(detector=det.name, config=cfg, ops=ops[: d[0] + 1], step=d[0], diff=d[1]))
+    from detectors import corr_compare
 
+    corr_compare(ck, "C01", cases, impl_out, models)
 
 def main(tier, seed):
     ck = Check("C01", tier, seed)
